@@ -149,7 +149,22 @@ def miri_workspace(ctx, cases, timeout=5400):
     """runs every job of `cases` under Miri (one `cargo miri run` per shard). Fills job.result like pipeline.run_jobs. Returns ub reports."""
     from . import pipeline as P
     from vgen import emit as E
-    wdir = os.path.join(ctx.work, 'miri_ws')
+    # a fixed path: cargo-miri records the package directory next to the build output, and the build output is reused across runs
+    # (the per-run work directory is gone by then)
+    wdir = os.path.join(core.WORK, 'miri_ws_' + ctx.prop)
+    import shutil
+    shutil.rmtree(wdir, ignore_errors=True)
+    # ... and forget the shard crates of earlier runs (cargo would call identical sources built elsewhere "fresh")
+    import glob
+    for pat in ('miri/*/debug/shard*', 'miri/*/debug/.fingerprint/shard*', 'miri/*/debug/deps/shard*', 'miri/*/debug/incremental/shard*'):
+        for f in glob.glob(os.path.join(core.TARGET, 'miri_ws', pat)):
+            if os.path.isdir(f):
+                shutil.rmtree(f, ignore_errors=True)
+            else:
+                try:
+                    os.remove(f)
+                except OSError:
+                    pass
     shard_cases = core.split_shards(cases, min(len(cases), core.NCPU))
     shards, where = [], {}
     for si, cs in enumerate(shard_cases):
@@ -186,6 +201,13 @@ def miri_workspace(ctx, cases, timeout=5400):
         if 'Undefined Behavior' in err or 'unsupported operation' in err:
             reports.append((si, in_flight, err[-4000:]))
         elif not done:
+            try:
+                logdir = os.path.join(core.VERIF, 'replays', ctx.prop)
+                os.makedirs(logdir, exist_ok=True)
+                with open(os.path.join(logdir, 'miri_incomplete_shard%d.log' % si), 'w') as f:
+                    f.write(err)
+            except OSError:
+                pass
             reports.append((si, in_flight, 'INCOMPLETE: ' + err[-1500:]))
     with ThreadPoolExecutor(max_workers=core.NCPU) as ex:
         list(ex.map(one, range(len(shards))))
